@@ -39,6 +39,9 @@ struct StreamGen {
     big_done: bool,
     gates: u64,
     inputs: u64,
+    /// AIGER: item counts per section [inputs, latches, outputs, bad, constraints, justice, fairness, gates, symbols]
+    sect: [u64; 9],
+    phase: usize,
     max_item: Rc<Cell<u64>>,
 }
 
@@ -66,13 +69,34 @@ impl StreamGen {
                     _ => writeln!(out, "{} sort bitvec {}", k + 2, 1 + k % 64),
                 };
             }
-            Fmt::Aag => {
-                let out_code = 2 * (self.inputs + 1 + k);
-                let _ = writeln!(out, "{} {} 2", out_code, out_code - 2);
-            }
-            Fmt::Aig => {
-                out.push(0x02);
-                out.push(0x01);
+            Fmt::Aag | Fmt::Aig => {
+                let ascii = self.fmt == Fmt::Aag;
+                let (ni, nl) = (self.sect[0], self.sect[1]);
+                // phases: 0 inputs, 1 latches, 2 outputs, 3 bad, 4 constraints, 5 justice sizes,
+                // 6 justice literals, 7 fairness, 8 gates, 9 symbols
+                let _ = match self.phase {
+                    0 => writeln!(out, "{}", 2 * (k + 1)),
+                    1 => {
+                        if ascii {
+                            writeln!(out, "{} {}", 2 * (ni + k + 1), k % 2)
+                        } else {
+                            writeln!(out, "{}", k % 2)
+                        }
+                    }
+                    2 | 3 | 4 | 6 | 7 => writeln!(out, "{}", k % 2),
+                    5 => writeln!(out, "1"),
+                    8 => {
+                        let out_code = 2 * (ni + nl + 1 + k);
+                        if ascii {
+                            writeln!(out, "{} {} {}", out_code, out_code - 2, k % 2)
+                        } else {
+                            out.push(0x02);
+                            out.push((k % 2) as u8);
+                            Ok(())
+                        }
+                    }
+                    _ => writeln!(out, "i{} name{}", k % ni.max(1), k),
+                };
             }
         }
         let n = (out.len() - start) as u64;
@@ -90,14 +114,23 @@ impl StreamGen {
                 Fmt::Wcnf => out.extend_from_slice(b"p wcnf 1013 0 10\n"),
                 Fmt::Gcnf => out.extend_from_slice(b"p gcnf 1013 0 4\n"),
                 Fmt::Btor2 => out.extend_from_slice(b"1 sort bitvec 8\n"),
-                Fmt::Aag => {
-                    let _ = writeln!(out, "aag {} {} 0 0 {}", self.inputs + self.gates, self.inputs, self.gates);
-                    for i in 0..self.inputs {
-                        let _ = writeln!(out, "{}", 2 * (i + 1));
-                    }
-                }
-                Fmt::Aig => {
-                    let _ = writeln!(out, "aig {} {} 0 0 {}", self.inputs + self.gates, self.inputs, self.gates);
+                Fmt::Aag | Fmt::Aig => {
+                    let c = self.sect;
+                    let _ = writeln!(
+                        out,
+                        "{} {} {} {} {} {} {} {} {} {}",
+                        if self.fmt == Fmt::Aag { "aag" } else { "aig" },
+                        c[0] + c[1] + c[7],
+                        c[0],
+                        c[1],
+                        c[2],
+                        c[7],
+                        c[3],
+                        c[4],
+                        c[5],
+                        c[6]
+                    );
+                    self.phase = if self.fmt == Fmt::Aag { 0 } else { 1 };
                 }
             }
         }
@@ -114,7 +147,16 @@ impl StreamGen {
         let item_based = matches!(self.fmt, Fmt::Aag | Fmt::Aig);
         while out.len() + 64 < cap {
             if item_based {
-                if self.k >= self.gates {
+                // counts per phase: justice has two phases (sizes, literals) of sect[5] items each
+                let counts = [
+                    self.sect[0], self.sect[1], self.sect[2], self.sect[3], self.sect[4], self.sect[5], self.sect[5],
+                    self.sect[6], self.sect[7], self.sect[8],
+                ];
+                while self.phase < 10 && self.k >= counts[self.phase] {
+                    self.phase += 1;
+                    self.k = 0;
+                }
+                if self.phase >= 10 {
                     self.emitted += out.len() as u64;
                     return false;
                 }
@@ -250,13 +292,42 @@ fn stream<F: FnMut(&mut Vec<u8>) -> bool>(
                 while s.next_input()?.is_some() {
                     tick(&mut items);
                 }
-                let s = s.latches()?.outputs()?.bad_state_properties()?.invariant_constraints()?;
-                let s = s.justice_properties()?.justice_property_local_fairness_constraints()?;
-                let mut s = s.fairness_constraints()?.and_gates()?;
+                let mut s = s.latches()?;
+                while s.next_latch()?.is_some() {
+                    tick(&mut items);
+                }
+                let mut s = s.outputs()?;
+                while s.next_output()?.is_some() {
+                    tick(&mut items);
+                }
+                let mut s = s.bad_state_properties()?;
+                while s.next_bad_state_property()?.is_some() {
+                    tick(&mut items);
+                }
+                let mut s = s.invariant_constraints()?;
+                while s.next_invariant_constraint()?.is_some() {
+                    tick(&mut items);
+                }
+                let mut s = s.justice_properties()?;
+                while s.next_justice_property_size()?.is_some() {
+                    tick(&mut items);
+                }
+                let mut s = s.justice_property_local_fairness_constraints()?;
+                while s.next_justice_property_local_fairness_constraint()?.is_some() {
+                    tick(&mut items);
+                }
+                let mut s = s.fairness_constraints()?;
+                while s.next_fairness_constraint()?.is_some() {
+                    tick(&mut items);
+                }
+                let mut s = s.and_gates()?;
                 while s.next_and_gate()?.is_some() {
                     tick(&mut items);
                 }
                 let mut s = s.symbols()?;
+                while s.next_symbol()?.is_some() {
+                    tick(&mut items);
+                }
                 s.comment()?;
                 Ok(())
             })();
@@ -268,13 +339,42 @@ fn stream<F: FnMut(&mut Vec<u8>) -> bool>(
             use flussab_aiger::binary::{Config, Parser};
             let res = (|| -> Result<(), flussab_aiger::ParseError> {
                 let p = Parser::<u32>::new(lr, Config::default())?;
-                let s = p.latches()?.outputs()?.bad_state_properties()?.invariant_constraints()?;
-                let s = s.justice_properties()?.justice_property_local_fairness_constraints()?;
-                let mut s = s.fairness_constraints()?.and_gates()?;
+                let mut s = p.latches()?;
+                while s.next_latch()?.is_some() {
+                    tick(&mut items);
+                }
+                let mut s = s.outputs()?;
+                while s.next_output()?.is_some() {
+                    tick(&mut items);
+                }
+                let mut s = s.bad_state_properties()?;
+                while s.next_bad_state_property()?.is_some() {
+                    tick(&mut items);
+                }
+                let mut s = s.invariant_constraints()?;
+                while s.next_invariant_constraint()?.is_some() {
+                    tick(&mut items);
+                }
+                let mut s = s.justice_properties()?;
+                while s.next_justice_property_size()?.is_some() {
+                    tick(&mut items);
+                }
+                let mut s = s.justice_property_local_fairness_constraints()?;
+                while s.next_justice_property_local_fairness_constraint()?.is_some() {
+                    tick(&mut items);
+                }
+                let mut s = s.fairness_constraints()?;
+                while s.next_fairness_constraint()?.is_some() {
+                    tick(&mut items);
+                }
+                let mut s = s.and_gates()?;
                 while s.next_and_gate()?.is_some() {
                     tick(&mut items);
                 }
                 let mut s = s.symbols()?;
+                while s.next_symbol()?.is_some() {
+                    tick(&mut items);
+                }
                 s.comment()?;
                 Ok(())
             })();
@@ -307,9 +407,29 @@ impl Monitor for C10 {
         let big: u64 = if !item_based && (idx / 96) % 2 == 1 { 1 << 20 } else { 0 };
         let max_item = Rc::new(Cell::new(0u64));
         let target = self.mib << 20;
+        // AIGER: which section is the long one (all others have 3 entries); cycles with the configuration
+        let long_section = ((idx / 6) % 9) as usize;
+        let mut sect = [3u64; 9];
         let (gates, inputs) = match fmt {
-            Fmt::Aag => (target / 22, 3),
-            Fmt::Aig => (target / 2, 3),
+            Fmt::Aag | Fmt::Aig => {
+                let per_item: u64 = match (fmt, long_section) {
+                    (Fmt::Aig, 7) => 2,
+                    (Fmt::Aig, 0) => 2, // binary has no input lines: make the gate section long instead
+                    (_, 7) => 22,
+                    (_, 8) => 20,
+                    (_, 1) => 14,
+                    (_, 5) => 4,
+                    _ => 2,
+                };
+                let n = (target / per_item).min(400_000_000);
+                let ls = if fmt == Fmt::Aig && long_section == 0 { 7 } else { long_section };
+                sect[ls] = n;
+                if ls == 8 {
+                    // symbols refer to inputs
+                    sect[0] = 1000;
+                }
+                (sect[7], sect[0])
+            }
             _ => (0, 0),
         };
         let mut g = StreamGen {
@@ -323,6 +443,8 @@ impl Monitor for C10 {
             big_done: false,
             gates,
             inputs,
+            sect,
+            phase: 0,
             max_item: max_item.clone(),
         };
         let calls = Rc::new(Cell::new(0u64));
@@ -337,7 +459,7 @@ impl Monitor for C10 {
             calls: calls.clone(),
         };
         let half = match fmt {
-            Fmt::Aag | Fmt::Aig => gates / 2,
+            Fmt::Aag | Fmt::Aig => sect.iter().sum::<u64>() / 2,
             Fmt::Btor2 => target / 24 / 2,
             _ => target / 17 / 2,
         };
@@ -349,6 +471,13 @@ impl Monitor for C10 {
         rep.count("bytes_streamed", target);
         rep.count("read_calls", calls.get());
         rep.inc(&format!("format:{:?}", fmt));
+        if matches!(fmt, Fmt::Aag | Fmt::Aig) {
+            rep.inc(&format!(
+                "aiger_long_section:{}",
+                ["inputs", "latches", "outputs", "bad", "constraints", "justice", "fairness", "gates", "symbols"]
+                    [if fmt == Fmt::Aig && long_section == 0 { 7 } else { long_section }]
+            ));
+        }
         rep.max("peak_live_bytes", st.peak as u64);
         rep.max(&format!("peak_live_bytes:chunk={}:big={}", chunk, big > 0), st.peak as u64);
         if !st.ok {
